@@ -145,7 +145,7 @@ def judge(ctx, cases):
     with open(trace, "wb") as out:
         for k, case in enumerate(cases):
             origin += run_case(ctx, case, out, k)
-    res = ctx.validate("TraceConcurrency", trace, cfg=TRACE_CFG, chunk=2500)
+    res = ctx.validate("TraceConcurrency", trace, cfg=TRACE_CFG, chunk=1200 if ctx.quick else 2500)
     ctx.cov["events_judged"] = ctx.cov.get("events_judged", 0) + res["hits"].get("events", 0)
     recs = []
     lines = None
@@ -200,7 +200,7 @@ def main(ctx):
     # (c) free running, -race
     for n in (2, 4, 16):
         for procs in (2, 0):
-            cases.append({"free": {"n": n, "ops": 120 if q else 400, "runs": 2 if q else 8, "procs": procs}})
+            cases.append({"free": {"n": n, "ops": 100 if q else 400, "runs": 2 if q else 8, "procs": procs}})
     recs = judge(ctx, cases)
     for r in recs:
         ctx.add(r["api"], r["kind"], r["locus"], r["witness"], case=r["case"], detail=r.get("detail"))
